@@ -120,6 +120,7 @@ type Sched struct {
 	finished   chan struct{}
 	tearing    bool
 	quiet      bool
+	consec     int
 	fails      []Failure
 	trace      []string
 	traceOn    bool
@@ -255,7 +256,10 @@ func (s *Sched) reschedule() {
 				normal = append(normal, t)
 			}
 		}
-		if meEnabled {
+		// fairness: a thread that kept the token for SpinLimit consecutive points while others
+		// were runnable (a spin / retry loop) goes to the back of the round
+		spinning := meEnabled && s.consec > s.cfg.SpinLimit
+		if meEnabled && !spinning {
 			add(me)
 		}
 		// canonical order: the running thread first, then round-robin by thread id starting
@@ -270,6 +274,9 @@ func (s *Sched) reschedule() {
 			if t != me && s.isEnabled(t) {
 				add(t)
 			}
+		}
+		if spinning {
+			add(me)
 		}
 		var next *Thread
 		switch {
@@ -303,8 +310,12 @@ func (s *Sched) reschedule() {
 		}
 		s.record(next)
 		if next == me {
+			if len(normal) > 1 {
+				s.consec++
+			}
 			return
 		}
+		s.consec = 0
 		s.nSwitch++
 		s.cur = next
 		next.wake <- struct{}{}
@@ -499,6 +510,7 @@ type Config struct {
 	RaceWindow int64                         // only timers due within this many virtual ns of now may race (0 = any)
 	Trace      bool
 	MaxTime    int64          // virtual ns horizon for automatic time advance (0 = 1h)
+	SpinLimit  int            // consecutive points a thread may keep the token while others are runnable (0 = 60)
 	OnPoint    func(s *Sched) // monitor evaluated at every scheduling point (token holder context)
 }
 
@@ -522,6 +534,9 @@ func RunOne(cfg *Config, prefix, prefixN []int, body func(s *Sched)) ExecResult 
 	defer activeMu.Unlock()
 	if cfg.MaxSteps == 0 {
 		cfg.MaxSteps = 200000
+	}
+	if cfg.SpinLimit == 0 {
+		cfg.SpinLimit = 60
 	}
 	if cfg.MaxTime == 0 {
 		cfg.MaxTime = int64(3600) * 1e9
